@@ -336,6 +336,160 @@ func runC08(c *core.Ctx) {
 		}
 		r.Floor("c08.pbm-search-inclusive", 3)
 
+		// a block-level skipping filter rules out ONE block: the iterator moves to the next block of the same
+		// series, never to the next series (a series may own several blocks in one part)
+		if f := r.fn("c08.block-skip-advances-one-block", sibS.pkg, "(*partIter).findBlock"); f != nil {
+			rule := "c08.block-skip-advances-one-block"
+			construct := ssax.FuncName(f) + ": a block skipped by the block filter does not abandon the rest of its series"
+			// the If on the ShouldSkip outcome: its condition derives from a call whose (deep) body invokes index.Filter.ShouldSkip
+			var skipIf *ssa.If
+			for _, b := range f.Blocks {
+				iff, ok := b.Instrs[len(b.Instrs)-1].(*ssa.If)
+				if !ok {
+					continue
+				}
+				v := iff.Cond
+				if ex, ok := v.(*ssa.Extract); ok {
+					v = ex.Tuple
+				}
+				c, ok := v.(*ssa.Call)
+				if !ok {
+					continue
+				}
+				direct := strings.HasSuffix(ssax.CalleeName(c.Common()), ".ShouldSkip")
+				if mc, isC := c.Call.Value.(*ssa.MakeClosure); isC {
+					direct = direct || len(ssax.FindDeep(mc.Fn.(*ssa.Function), func(in ssa.Instruction) bool {
+						cc := ssax.Common(in)
+						return cc != nil && strings.HasSuffix(ssax.CalleeName(cc), ".ShouldSkip")
+					})) > 0
+				}
+				if direct {
+					skipIf = iff
+				}
+			}
+			if skipIf == nil {
+				r.Undecide(rule, construct, r.fpos(f), "no branch on the block filter's ShouldSkip outcome found")
+			} else {
+				first := skipIf.Block().Succs[0].Instrs[0]
+				h := innermostLoopHeader(skipIf.Block())
+				nextSeries := func(in ssa.Instruction) bool {
+					cc := ssax.Common(in)
+					return cc != nil && (strings.HasSuffix(ssax.CalleeName(cc), ".nextSeriesID") || strings.HasSuffix(ssax.CalleeName(cc), ".searchTargetSeriesID"))
+				}
+				again := func(in ssa.Instruction) bool { return h != nil && in == h.Instrs[0] || ssax.IsReturn(in) }
+				if tgt, path, found := (ssax.Search{Target: nextSeries, Avoid: again}).From(f, first); found || nextSeries(first) {
+					r.Violate(rule, construct, r.pos(skipIf), fmt.Sprintf("on the ShouldSkip outcome the iterator moves to the next SERIES (%s, blocks %s): the bloom / dictionary / min-max summary is per block, so later blocks of the same series in this part — which may hold matching rows — are never examined", r.pos(tgt), blocksStr(path)))
+				} else {
+					r.Hold(rule, construct, r.pos(skipIf), "")
+				}
+			}
+		}
+
+		// "true OR x" is true: an OR node is not built from an operand that is DummyFilter (a condition enforced
+		// elsewhere — entity, order-by key — which matches everything at this level); dropping it would evaluate the
+		// node as x alone and discard the rows that only satisfy the other side
+		if f := r.fn("c08.or-keeps-dummy", "pkg/query/logical", "BuildTagFilter"); f != nil {
+			rule := "c08.or-keeps-dummy"
+			isDummy := func(v ssa.Value) bool {
+				if mi, ok := v.(*ssa.MakeInterface); ok {
+					v = mi.X
+				}
+				if ci, ok := v.(*ssa.ChangeInterface); ok {
+					v = ci.X
+				}
+				u, ok := v.(*ssa.UnOp)
+				if !ok {
+					return false
+				}
+				g, ok := u.X.(*ssa.Global)
+				return ok && g.Name() == "DummyFilter"
+			}
+			n := 0
+			for _, in := range ssax.Find(f, ssax.CallTo("pkg/query/logical.newOrLogicalNode")) {
+				node := in.(*ssa.Call)
+				// operands: arguments of the append calls chained on the node
+				var ops []ssa.Value
+				var chase func(v ssa.Value, d int)
+				chase = func(v ssa.Value, d int) {
+					if d > 8 || v == nil {
+						return
+					}
+					if refs := v.Referrers(); refs != nil {
+						for _, ref := range *refs {
+							switch x := ref.(type) {
+							case *ssa.FieldAddr, *ssa.Field, *ssa.UnOp, *ssa.ChangeType:
+								chase(x.(ssa.Value), d+1) // the embedded *logicalNode the method is promoted from
+							case *ssa.Call:
+								if !strings.HasSuffix(ssax.CalleeName(x.Common()), ".logicalNode).append") || len(x.Call.Args) < 2 || x.Call.Args[0] != v {
+									continue
+								}
+								ops = append(ops, x.Call.Args[1])
+								chase(x, d+1)
+							}
+						}
+					}
+				}
+				chase(node, 0)
+				for i, op := range ops {
+					n++
+					opv := op
+					construct := fmt.Sprintf("%s: OR node #%d is not built when operand %d is DummyFilter", ssax.FuncName(f), n, i+1)
+					target := func(x ssa.Instruction) bool { return x == ssa.Instruction(node) }
+					if _, path, found := (ssax.Search{Target: target, Edge: ssax.RelEdge(func(v ssa.Value) bool { return v == opv }, isDummy, 0)}).From(f, nil); found {
+						r.Violate(rule, construct, r.pos(node), fmt.Sprintf("the OR node is constructed (blocks %s) although this operand may be DummyFilter; logicalNode.append drops DummyFilter operands, so `skipped-tag-condition OR x` is evaluated as `x` and rows that only satisfy the skipped condition are discarded", blocksStr(path)))
+					} else {
+						r.Hold(rule, construct, r.pos(node), "")
+					}
+				}
+			}
+			r.Floor(rule, 2)
+		}
+
+		// the dictionary of an array-typed tag holds whole serialized arrays and cannot answer element membership:
+		// it is never installed as a block filter (MightContain answers false for array types)
+		if f := r.fn("c08.array-dictionary-never-prunes", sibS.pkg, "(*tagFamilyFilter).unmarshal"); f != nil {
+			rule := "c08.array-dictionary-never-prunes"
+			install := func(in ssa.Instruction) bool {
+				st, ok := in.(*ssa.Store)
+				if !ok || !strings.HasSuffix(ssax.FieldQName(st.Addr), ".tagFilter.filter") {
+					return false
+				}
+				mi, ok := st.Val.(*ssa.MakeInterface)
+				return ok && strings.HasSuffix(mi.X.Type().String(), "filter.DictionaryFilter")
+			}
+			if len(ssax.Find(f, install)) == 0 {
+				r.Undecide(rule, ssax.FuncName(f)+": dictionary filter installation site", r.fpos(f), "no store of a *DictionaryFilter into tagFilter.filter found")
+			} else {
+				isVT := func(v ssa.Value) bool {
+					if u, ok := v.(*ssa.UnOp); ok {
+						v = u.X
+					}
+					fv := ssax.FieldOf(v)
+					return fv != nil && fv.Name() == "valueType"
+				}
+				for _, arr := range []string{"ValueTypeStrArr", "ValueTypeInt64Arr"} {
+					want := r.constsByValueRev("pkg/pb/v1", "ValueType")[arr]
+					if want == "" {
+						want = r.constsByValueRev("api/proto/banyandb/database/v1", "ValueType")[arr]
+					}
+					isK := func(v ssa.Value) bool {
+						k, ok := v.(*ssa.Const)
+						return ok && k.Value != nil && want != "" && k.Value.ExactString() == want
+					}
+					construct := fmt.Sprintf("%s: no dictionary block filter when the tag's value type is %s", ssax.FuncName(f), arr)
+					if want == "" {
+						r.Undecide(rule, construct, r.fpos(f), "constant "+arr+" not found")
+						continue
+					}
+					if tgt, path, found := worldSearch(f, nil, install, relAtom(isVT, isK, 0)); found {
+						r.Violate(rule, construct, r.pos(tgt), fmt.Sprintf("with valueType == %s the dictionary filter is installed (blocks %s): EQ / HAVING on the array tag asks MightContain for a single element, gets false, and the block is pruned although it holds matching rows", arr, blocksStr(path)))
+					} else {
+						r.Hold(rule, construct, r.fpos(f), "")
+					}
+				}
+			}
+		}
+
 		// stream element index: the matched element ids and the matched timestamps are accumulated together
 		if f := r.fn("c08.search-lists-together", sibS.pkg, "(*elementIndex).Search"); f != nil {
 			rule := "c08.search-lists-together"
